@@ -46,7 +46,7 @@ BOUND = {
                  "lists of length 0..3 x 6 naming configs; x 5 joins. aggregate: all lists of length 0..5 x 4 "
                  "group-key tuples"),
 }
-TIME_CAP = {"quick": 240, "thorough": 3000}
+TIME_CAP = {"quick": 480, "thorough": 3000}
 
 JOINS = ["left_join", "inner_join", "semi_join", "anti_join", "full_join"]
 KEYVALS = [None, 1, 2]
@@ -181,6 +181,40 @@ def _repeats_or_none(items, names):
 # joins
 # ---------------------------------------------------------------------------
 
+VIAS = ["deepcopy", "filter", "map", "json", "modify", "slice"]
+
+
+def lod_via(items, via):
+    """The list with these items, built directly - or (provenance) as the PRODUCT of another public operation that
+    leaves the same items: the operations under test must not care where their operands came from. Falls back to the
+    directly built list when the product does not hold the same items (that is the other operation's business)."""
+    a = di.ListOfDicts([dict(x) for x in items])
+    if not via:
+        return a
+    try:
+        if via == "deepcopy":
+            out = a.deepcopy()
+        elif via == "filter":
+            out = a.filter(lambda x: True)
+        elif via == "map":
+            out = a.map(lambda x: dict(x))
+        elif via == "json":
+            out = di.ListOfDicts.from_json(a.to_json())
+        elif via == "modify":
+            out = a.modify(id=lambda x: x["id"]) if all("id" in x for x in items) else a.deepcopy()
+        elif via == "slice":
+            out = a[:]
+        else:
+            raise ValueError(via)
+    except ValueError:
+        raise
+    except Exception:
+        return a
+    if not isinstance(out, di.ListOfDicts) or [repr(sorted(x.items(), key=repr)) for x in out] != [repr(sorted(dict(x).items(), key=repr)) for x in items]:
+        return di.ListOfDicts([dict(x) for x in items])
+    return out
+
+
 def check_join(case, rec):
     left, right = case["left"], case["right"]
     alias = bool(case.get("alias_left"))
@@ -199,11 +233,13 @@ def check_join(case, rec):
         rec.trans()
         one = {"part": "join", "left": case["left"], "right": right, "by": case["by"], "joins": [join]}
         # fresh copies for every execution: left_join / inner_join edit the items in place
-        a = di.ListOfDicts([dict(x) for x in case["left"]])
+        a = lod_via(case["left"], case.get("via"))
+        if case.get("via"):
+            one["via"] = case["via"]
         if alias:
             one["alias_left"] = True
             a = a * 2   # the same item OBJECTS twice (list semantics of *)
-        b = di.ListOfDicts([dict(x) for x in right])
+        b = lod_via(right, case.get("via"))
         by_arg = [list(x) if (case.get("pair_form") == "list" and not isinstance(x, str)) else x for x in by]
         if case.get("pair_form"):
             one["pair_form"] = case["pair_form"]
@@ -260,7 +296,7 @@ def check_agg(case, rec):
         g["n"] = len(idx)
         g["ids"] = tuple(item_digest(items[i]) for i in idx)
         want.append(g)
-    a = di.ListOfDicts([dict(x) for x in items])
+    a = lod_via(items, case.get("via"))
     try:
         if case.get("regroup"):
             # the same list object was grouped (by other keys) and aggregated before
@@ -328,6 +364,9 @@ def run_shard(shard, rec):
                 if nl <= 2 and nr <= 2 and shard["cfg"] in ("1-ren", "2-mixed"):
                     # a (left, right) pair written as a list: accepted like a tuple on the unchanged tree
                     check_case(dict(case, pair_form="list"), rec)
+                if nl <= 2 and nr <= 2:
+                    for via in VIAS:
+                        check_case(dict(case, via=via), rec)
                 count += 1
                 if count % 997 == 1:
                     rec.sample({"part": "join", "left": left, "right": right, "by": by, "joins": joins})
@@ -342,6 +381,9 @@ def run_shard(shard, rec):
                 check_case(case, rec)
                 if 1 <= n <= 3:
                     check_case(dict(case, twice=True), rec)
+                if n <= 3:
+                    for via in VIAS:
+                        check_case(dict(case, via=via), rec)
                 if 2 <= n <= 3:
                     check_case(dict(case, regroup=[k for k in ("k2", "k") if k not in by] or list(reversed(by))), rec)
                 count += 1
